@@ -1,5 +1,6 @@
 import TracklibVerif.Lemmas.FeaturesCall
 import TracklibVerif.Lemmas.FeaturesKeep
+import TracklibVerif.Lemmas.FeaturesKeepX
 import TracklibVerif.Props.C01World
 /-! # C01 — the list forms of `Track.operate`
 
@@ -114,7 +115,7 @@ assignment, cell writes, addAnalyticalFeature, every operator object (an operato
 negative, `1/0` — with an output feature that already exists included), `estimate_speed`, `segmentation`, the list forms. Every
 feature listed before the call is listed after it (and, the table being aligned by L1, reads as a full column). This is the
 statement the seeded change C01-9 broke (`Apply.execute` removing its output column when the cell function raises). For the three
-deleting calls the names they do not designate are covered by `call_frame`; that `a = <expr>` relists `a` is open. -/
+deleting calls see L6 (`call_unlists_only_designated`). -/
 theorem call_keeps_listed (o : Ops V) (c : Call V) (st : St V) (h : Inv n st) (hc : c.deletes = false) (m : String)
     (hm : m ∈ names st) : m ∈ names (call o c st).2 := by
   obtain ⟨_, href⟩ := call_refines o c st h
@@ -136,5 +137,63 @@ example : ((call iops (.one (.fnVoid "SQRT" "a" (some "b")))
     (call iops (.one (.fnVoid "SQRT" "a" (some "b")))
       (runOps iops [.create "a" (.list [4, -1, 9]), .create "b" (.list [1, 2, 3])] t0)).2.rows) =
     (false, [("a", 0), ("b", 1)], [[4, 1], [-1, 2], [9, 3]]) := by decide +kernel
+
+/-- L6 (the deleting calls delete only what they are meant to delete; completes L5 to EVERY call form): on a track with at
+least one observation, a call in any form — single, list form, refused; returning or raising — unlists no name outside
+`Call.mayUnlist`: the argument of `removeAnalyticalFeature` / `'#DELETE'`; `ds` for `computeAbsCurv` (so a user's `abs_curv`,
+and every other name, stays); for `operate(str)` only names starting with `#` (the evaluator's temporaries and `#output`) —
+in particular the left-hand side of a re-assignment `a = <expr>`, which `__applyOperation` removes and re-creates, IS listed
+afterwards, also when a later operator of the expression or the purge raises; nothing at all for any other call. The reserved
+names (`x y z t timestamp idx`) are excepted for `operate(str)`: the API never lists them (`__controlName`), the alignment
+invariant alone does not say so. `n ≠ 0` is the property's quantifier (tracks of every size ≥ 1): on a track emptied of its
+observations whose dict still lists features, `a=b` does unlist `a` (remove succeeds, create refuses an empty track). -/
+theorem call_unlists_only_designated (o : Ops V) (c : Call V) (st : St V) (h : Inv n st) (hn : n ≠ 0) (m : String)
+    (hm : m ∈ names st) (hx : ¬ c.mayUnlist m) : m ∈ names (call o c st).2 := by
+  obtain ⟨hs, hk⟩ := kx_call hn o c
+  obtain ⟨_, href, _⟩ := hs st h
+  rw [← names_abs] at hm ⊢
+  unfold anames at hm ⊢
+  rw [← lookup_isSome_iff] at hm ⊢
+  have := hk st h m hm hx
+  rw [href] at this
+  exact this
+
+/-- L6 for `operate(str)`: every listed name that does not start with `#` (and is not a reserved word) is listed after the
+call, returning or raising — re-assigned left-hand sides included -/
+theorem expr_unlists_only_hash (o : Ops V) (rpn : List String) (st : St V) (h : Inv n st) (hn : n ≠ 0) (m : String)
+    (hm : m ∈ names st) (hh : isHash m = false) (hr : reserved m = false) :
+    m ∈ names (step o (.expr rpn) st).2 :=
+  call_unlists_only_designated o (.one (.expr rpn)) st h hn m hm (by
+    intro hx
+    rcases hx with hx | hx
+    · rw [hh] at hx; cases hx
+    · rw [hr] at hx; cases hx)
+
+/-- L6 for `computeAbsCurv`: every listed name but `ds` is listed after the call, returning or raising -/
+theorem absCurv_unlists_only_ds (o : Ops V) (st : St V) (h : Inv n st) (hn : n ≠ 0) (m : String)
+    (hm : m ∈ names st) (hne : m ≠ "ds") : m ∈ names (step o .absCurv st).2 :=
+  call_unlists_only_designated o (.one .absCurv) st h hn m hm hne
+
+/-- `operate("a=b+zz")` with `a`, `b` listed and `zz` unknown: the call raises after nothing was written, `a` and `b` stay;
+`operate("a=b+b")`: `a` is removed and re-created (it moves to the last column) and reads the sum, no `#` name remains -/
+example : ((call iops (.one (.expr ["a", "b", "b", "+", "="]))
+      (runOps iops [.create "a" (.list [1, 2, 3]), .create "b" (.list [4, 5, 6])] t0)).1.toOption.isSome,
+    (call iops (.one (.expr ["a", "b", "b", "+", "="]))
+      (runOps iops [.create "a" (.list [1, 2, 3]), .create "b" (.list [4, 5, 6])] t0)).2.dico,
+    (call iops (.one (.expr ["a", "b", "b", "+", "="]))
+      (runOps iops [.create "a" (.list [1, 2, 3]), .create "b" (.list [4, 5, 6])] t0)).2.rows) =
+    (true, [("b", 0), ("a", 1)], [[4, 8], [5, 10], [6, 12]]) := by decide +kernel
+example : ¬ Call.mayUnlist (.one (.expr ["a", "b", "b", "+", "="]) : Call Int) "a" := by
+  intro h; rcases h with h | h <;> revert h <;> decide +kernel
+
+example : ((call iops (.one (.expr ["a", "b", "zz", "+", "="]))
+      (runOps iops [.create "a" (.list [1, 2, 3]), .create "b" (.list [4, 5, 6])] t0)).1.toOption.isSome,
+    (call iops (.one (.expr ["a", "b", "zz", "+", "="]))
+      (runOps iops [.create "a" (.list [1, 2, 3]), .create "b" (.list [4, 5, 6])] t0)).2.dico,
+    (call iops (.one (.expr ["a", "b", "zz", "+", "="]))
+      (runOps iops [.create "a" (.list [1, 2, 3]), .create "b" (.list [4, 5, 6])] t0)).2.rows) =
+    (false, [("a", 0), ("b", 1)], [[1, 4], [2, 5], [3, 6]]) := by decide +kernel
+example : ¬ Call.mayUnlist (.one .absCurv : Call Int) "abs_curv" := by
+  show ¬ ("abs_curv" = "ds"); decide
 
 end TV.C01
